@@ -191,5 +191,10 @@ pub fn thinned() -> bool {
     if t <= 1 {
         return false;
     }
-    THIN.fetch_add(1, std::sync::atomic::Ordering::Relaxed) % t != 0
+    // pseudo-random (not periodic) thinning so that no systematic class of histories is dropped
+    let k = THIN.fetch_add(1, std::sync::atomic::Ordering::Relaxed) as u64;
+    let mut z = k.wrapping_mul(0x9E3779B97F4A7C15) ^ 0xD1B54A32D192ED03;
+    z = (z ^ (z >> 30)).wrapping_mul(0xBF58476D1CE4E5B9);
+    z = (z ^ (z >> 27)).wrapping_mul(0x94D049BB133111EB);
+    (z ^ (z >> 31)) % (t as u64) != 0
 }
